@@ -4,6 +4,7 @@
   configuration its `init` chose, and the three models never mix.
 -/
 import MajoranaVerif.Model.Mvp63
+import MajoranaVerif.Proofs.Mvp63MapOrder
 open GoInt
 
 namespace Proofs.Mvp61Cfg
@@ -11,17 +12,19 @@ open Model.Mvp61
 open Model.Seq (App Halt)
 open Model.Mvp60 (Event)
 
-/-- same configuration -/
+/-- same configuration, same marker -/
 structure Cfg (s s' : State) : Prop where
   v62 : s'.v62 = s.v62
   v63 : s'.v63 = s.v63
+  /-- the ghost marker of an ambiguous forwarding choice -/
+  mo : s'.mapOrder = s.mapOrder
 
-theorem Cfg.refl (s : State) : Cfg s s := ⟨rfl, rfl⟩
-theorem Cfg.trans {a b c : State} (h1 : Cfg a b) (h2 : Cfg b c) : Cfg a c := ⟨h2.v62.trans h1.v62, h2.v63.trans h1.v63⟩
+theorem Cfg.refl (s : State) : Cfg s s := ⟨rfl, rfl, rfl⟩
+theorem Cfg.trans {a b c : State} (h1 : Cfg a b) (h2 : Cfg b c) : Cfg a c := ⟨h2.v62.trans h1.v62, h2.v63.trans h1.v63, h2.mo.trans h1.mo⟩
 theorem Cfg.pre {a b c : State} (h2 : Cfg b c) (h1 : Cfg a b) : Cfg a c := h1.trans h2
 
 macro "cfg_rfl" : tactic =>
-  `(tactic| first | exact ⟨rfl, rfl⟩ | (split <;> exact ⟨rfl, rfl⟩) | (split <;> split <;> exact ⟨rfl, rfl⟩))
+  `(tactic| first | exact ⟨rfl, rfl, rfl⟩ | (split <;> exact ⟨rfl, rfl, rfl⟩) | (split <;> split <;> exact ⟨rfl, rfl, rfl⟩))
 
 theorem fetchCycle_cfg {app : App} {s s' : State} (h : fetchCycle app s = .ok s') : Cfg s s' := by
   unfold fetchCycle at h
@@ -29,7 +32,7 @@ theorem fetchCycle_cfg {app : App} {s s' : State} (h : fetchCycle app s = .ok s'
   split at h
   · cases h
   · simp only [pure, Except.pure, Except.ok.injEq] at h
-    subst h; exact ⟨rfl, rfl⟩
+    subst h; exact ⟨rfl, rfl, rfl⟩
 
 theorem decodeLoop_cfg {app : App} (c : Int) : ∀ (n : Nat) (s s' : State), decodeLoop app c n s = .ok s' → Cfg s s' := by
   intro n
@@ -42,9 +45,9 @@ theorem decodeLoop_cfg {app : App} (c : Int) : ∀ (n : Nat) (s s' : State), dec
     intro s s' h
     simp only [decodeLoop, bind, Except.bind, pure, Except.pure] at h
     split at h
-    · cases h; exact ⟨rfl, rfl⟩
+    · cases h; exact ⟨rfl, rfl, rfl⟩
     · split at h
-      · cases h; exact ⟨rfl, rfl⟩
+      · cases h; exact ⟨rfl, rfl, rfl⟩
       · split at h
         · cases h
         · split at h
@@ -61,25 +64,12 @@ theorem decodeCycle_cfg {app : App} {s s' : State} (h : decodeCycle app s = .ok 
     · cases h; exact Cfg.refl s
     · exact decodeLoop_cfg _ _ _ _ h
 
-theorem controlCycle_cfg {s s' : State} (h : controlCycle s = .ok s') : Cfg s s' := by
-  unfold controlCycle at h
-  split at h
-  · cases h; exact ⟨rfl, rfl⟩
-  · simp only [bind, Except.bind, pure, Except.pure] at h
-    split at h
-    · cases h
-    · split at h
-      · cases h; exact ⟨rfl, rfl⟩
-      · split at h
-        · cases h
-        · cases h; exact ⟨rfl, rfl⟩
-
 theorem buAssert_cfg (s : State) (r : Runner) : Cfg s (buAssert s r) := by
   unfold buAssert
   simp only
   split
-  · split <;> exact ⟨rfl, rfl⟩
-  · split <;> exact ⟨rfl, rfl⟩
+  · split <;> exact ⟨rfl, rfl, rfl⟩
+  · split <;> exact ⟨rfl, rfl, rfl⟩
 
 theorem euRun_cfg {app : App} {s s' : State} {i : Nat} {eu : ExecUnit} {r : Runner} {c : Int} {out : EuOut}
     (h : euRun app s i eu r c = .ok (s', out)) : Cfg s s' := by
@@ -87,7 +77,7 @@ theorem euRun_cfg {app : App} {s s' : State} {i : Nat} {eu : ExecUnit} {r : Runn
   simp only [bind, Except.bind, pure, Except.pure] at h
   repeat' split at h
   all_goals cases h
-  all_goals exact ⟨rfl, rfl⟩
+  all_goals exact ⟨rfl, rfl, rfl⟩
 
 theorem euReceive_cfg {s s' : State} {eu eu' : ExecUnit} {r r' : Runner}
     (h : euReceive s eu r = some (s', eu', r')) : Cfg s s' := by
@@ -96,7 +86,7 @@ theorem euReceive_cfg {s s' : State} {eu eu' : ExecUnit} {r r' : Runner}
   · cases h; exact Cfg.refl s
   · split at h
     · cases h
-    · cases h; exact ⟨rfl, rfl⟩
+    · cases h; exact ⟨rfl, rfl, rfl⟩
 
 theorem euAfterReceive_cfg {app : App} {s s' : State} {i : Nat} {eu : ExecUnit} {r : Runner} {c : Int} {out : EuOut}
     (h : euAfterReceive app s i eu r c = .ok (s', out)) : Cfg s s' := by
@@ -108,7 +98,7 @@ theorem euAfterReceive_cfg {app : App} {s s' : State} {i : Nat} {eu : ExecUnit} 
     · cases h
     · split at h
       all_goals cases h
-      all_goals exact fb.trans ⟨rfl, rfl⟩
+      all_goals exact fb.trans ⟨rfl, rfl, rfl⟩
   · exact fb.trans (euRun_cfg h)
 
 theorem euPrepare_cfg {app : App} {s s' : State} {i : Nat} {eu : ExecUnit} {r : Runner} {c : Int} {out : EuOut}
@@ -116,9 +106,9 @@ theorem euPrepare_cfg {app : App} {s s' : State} {i : Nat} {eu : ExecUnit} {r : 
   unfold euPrepare at h
   simp only [pure, Except.pure] at h
   split at h
-  · cases h; exact ⟨rfl, rfl⟩
+  · cases h; exact ⟨rfl, rfl, rfl⟩
   · split at h
-    · cases h; exact ⟨rfl, rfl⟩
+    · cases h; exact ⟨rfl, rfl, rfl⟩
     · rename_i hr
       exact (euReceive_cfg hr).trans (euAfterReceive_cfg h)
 
@@ -129,21 +119,21 @@ theorem euCycle_cfg {app : App} {s s' : State} {i : Nat} {c : Int} {out : EuOut}
   split at h
   · cases h
   · split at h
-    · cases h; exact ⟨rfl, rfl⟩
+    · cases h; exact ⟨rfl, rfl, rfl⟩
     · split at h
       · split at h
-        · cases h; exact ⟨rfl, rfl⟩
-        · exact (euPrepare_cfg h).pre ⟨rfl, rfl⟩
+        · cases h; exact ⟨rfl, rfl, rfl⟩
+        · exact (euPrepare_cfg h).pre ⟨rfl, rfl, rfl⟩
       · split at h
         · cases h
         · exact euPrepare_cfg h
       · split at h
-        · cases h; exact ⟨rfl, rfl⟩
+        · cases h; exact ⟨rfl, rfl, rfl⟩
         · split at h
           · cases h
           · exact euRun_cfg h
       · split at h
-        · cases h; exact ⟨rfl, rfl⟩
+        · cases h; exact ⟨rfl, rfl, rfl⟩
         · split at h
           · cases h
           · cases h
@@ -154,7 +144,7 @@ theorem euCycle_cfg {app : App} {s s' : State} {i : Nat} {c : Int} {out : EuOut}
               · split at h
                 · cases h
                 · split at h
-                  · exact (euRun_cfg h).pre ⟨rfl, rfl⟩
+                  · exact (euRun_cfg h).pre ⟨rfl, rfl, rfl⟩
                   · cases h
 
 theorem wuCycle62_cfg {s s' : State} {j : Nat} {before : Word} (h : wuCycle62 s j before = .ok s') : Cfg s s' := by
@@ -162,7 +152,7 @@ theorem wuCycle62_cfg {s s' : State} {j : Nat} {before : Word} (h : wuCycle62 s 
   simp only [pure, Except.pure] at h
   repeat' split at h
   all_goals cases h
-  all_goals exact ⟨rfl, rfl⟩
+  all_goals exact ⟨rfl, rfl, rfl⟩
 
 theorem wuCycle_cfg {s s' : State} {j : Nat} {before : Word} (h : wuCycle s j before = .ok s') : Cfg s s' := by
   unfold wuCycle at h
@@ -171,7 +161,7 @@ theorem wuCycle_cfg {s s' : State} {j : Nat} {before : Word} (h : wuCycle s j be
   · simp only [bind, Except.bind, pure, Except.pure] at h
     split at h
     · cases h
-    · cases h; exact ⟨rfl, rfl⟩
+    · cases h; exact ⟨rfl, rfl, rfl⟩
 
 theorem foldlM_wu_cfg (before : Word) : ∀ (js : List Nat) (s s' : State),
     js.foldlM (fun s j => wuCycle s j before) s = .ok s' → Cfg s s' := by
@@ -211,7 +201,7 @@ theorem eusCycle_cfg {app : App} : ∀ (n i : Nat) (s s' : State) (acc acc' : Eu
       · cases h
       · rename_i v hv
         obtain ⟨s1, out⟩ := v
-        have f1 : Cfg s s1 := (euCycle_cfg hv).pre ⟨rfl, rfl⟩
+        have f1 : Cfg s s1 := (euCycle_cfg hv).pre ⟨rfl, rfl, rfl⟩
         simp only at h
         split at h
         · simp only [pure, Except.pure, Except.ok.injEq, Prod.mk.injEq] at h
@@ -286,14 +276,14 @@ theorem finish_cfg {s s' : State} {h : Halt} {ev : Event} (hf : finish s h = .ok
   · cases hf
   · simp only [Except.ok.injEq, Prod.mk.injEq] at hf
     obtain ⟨rfl, _⟩ := hf
-    exact ⟨rfl, rfl⟩
+    exact ⟨rfl, rfl, rfl⟩
 
 theorem goRetB_cfg {s s' : State} {ev : Event} (h : goRetB s = .ok (s', ev)) : Cfg s s' := by
   unfold goRetB at h
   split at h
   · simp only [pure, Except.pure, Except.ok.injEq, Prod.mk.injEq] at h
     obtain ⟨rfl, _⟩ := h
-    exact ⟨rfl, rfl⟩
+    exact ⟨rfl, rfl, rfl⟩
   · exact finish_cfg h
 
 theorem goRetA_cfg {s s' : State} {ev : Event} (h : goRetA s = .ok (s', ev)) : Cfg s s' := by
@@ -301,8 +291,8 @@ theorem goRetA_cfg {s s' : State} {ev : Event} (h : goRetA s = .ok (s', ev)) : C
   split at h
   · simp only [pure, Except.pure, Except.ok.injEq, Prod.mk.injEq] at h
     obtain ⟨rfl, _⟩ := h
-    exact ⟨rfl, rfl⟩
-  · exact (goRetB_cfg h).pre ⟨rfl, rfl⟩
+    exact ⟨rfl, rfl, rfl⟩
+  · exact (goRetB_cfg h).pre ⟨rfl, rfl, rfl⟩
 
 theorem goFlushW_cfg (seq pc : Word) (fc : Int) (e : Bool) : ∀ (n i : Nat) (s : State),
     Cfg s (goFlushW s seq pc fc e n i).1 := by
@@ -311,24 +301,36 @@ theorem goFlushW_cfg (seq pc : Word) (fc : Int) (e : Bool) : ∀ (n i : Nat) (s 
   | zero =>
     intro i s
     simp only [goFlushW]
-    split <;> exact ⟨rfl, rfl⟩
+    split <;> exact ⟨rfl, rfl, rfl⟩
   | succ n ih =>
     intro i s
     simp only [goFlushW]
     split
-    · split <;> exact ⟨rfl, rfl⟩
+    · split <;> exact ⟨rfl, rfl, rfl⟩
     · split
-      · exact ⟨rfl, rfl⟩
+      · exact ⟨rfl, rfl, rfl⟩
       · exact ih _ s
 
-theorem cycleM_cfg {app : App} {s s' : State} {ev : Event} (h : cycleM app s = .ok (s', ev)) : Cfg s s' := by
+open Proofs.Mvp63MapOrder (Wit)
+
+/-- one tick: the configuration stays; the marker stays, or the tick ends the run with the distinguished panic and the
+marker names a candidate and two different producers among the final state's `pushedRunnersInPreviousCycle` -/
+structure Step (s s' : State) (ev : Event) : Prop where
+  v62 : s'.v62 = s.v62
+  v63 : s'.v63 = s.v63
+  mo : s'.mapOrder = s.mapOrder ∨
+       (ev = .done (.panic mapOrderMsg) ∧ ∃ w, s'.mapOrder = some w ∧ Wit s'.cuPrev w)
+
+theorem Cfg.toStep {s s' : State} {ev : Event} (h : Cfg s s') : Step s s' ev := ⟨h.v62, h.v63, Or.inl h.mo⟩
+
+theorem cycleM_cfg {app : App} {s s' : State} {ev : Event} (h : cycleM app s = .ok (s', ev)) : Step s s' ev := by
   unfold cycleM at h
   split at h
   · simp only [bind, Except.bind, pure, Except.pure] at h
     split at h
     · cases h
     · rename_i s1 h1
-      have f1 : Cfg s s1 := (fetchCycle_cfg h1).pre ⟨rfl, rfl⟩
+      have f1 : Cfg s s1 := (fetchCycle_cfg h1).pre ⟨rfl, rfl, rfl⟩
       split at h
       · cases h
       · rename_i s2 h2
@@ -336,38 +338,57 @@ theorem cycleM_cfg {app : App} {s s' : State} {ev : Event} (h : cycleM app s = .
         split at h
         · cases h
         · rename_i s3 h3
-          have f3 := f2.trans (controlCycle_cfg h3)
-          split at h
-          · cases h
-          · rename_i v hv
-            obtain ⟨s4, acc⟩ := v
-            have f4 := f3.trans (eusCycle_cfg _ _ _ _ _ _ hv)
-            simp only at h
+          obtain ⟨c1, c2, c3⟩ := Proofs.Mvp63MapOrder.controlCycle_mo h3
+          have hB : (∃ w, s3 = { s2 with mapOrder := some w } ∧ Wit s2.cuPrev w) → Step s s' ev := by
+            rintro ⟨w, hw, hwit⟩
+            split at h
+            · simp only [Except.ok.injEq, Prod.mk.injEq] at h
+              obtain ⟨rfl, rfl⟩ := h
+              refine ⟨c1.trans f2.v62, c2.trans f2.v63, Or.inr ⟨rfl, w, by rw [hw], ?_⟩⟩
+              rw [hw]; exact hwit
+            · rename_i hn
+              rw [hw] at hn
+              simp only [Option.isSome_some, not_true_eq_false] at hn
+          rcases c3 with c3 | c3
+          · have f3 : Cfg s s3 := f2.trans ⟨c1, c2, c3⟩
             split at h
             · simp only [Except.ok.injEq, Prod.mk.injEq] at h
               obtain ⟨rfl, _⟩ := h
-              exact f4
-            · split at h
-              · cases h
-              · rename_i s5 h5
-                have f5 := f4.trans (wusCycleB_cfg h5)
-                split at h
-                · exact f5.trans (goRetA_cfg h)
-                · split at h
-                  · simp only [Except.ok.injEq, Prod.mk.injEq] at h
-                    obtain ⟨rfl, _⟩ := h
-                    exact f5.trans ⟨rfl, rfl⟩
+              exact f3.toStep
+            refine Cfg.toStep ?_
+            split at h
+            · cases h
+            · rename_i v hv
+              obtain ⟨s4, acc⟩ := v
+              have f4 := f3.trans (eusCycle_cfg _ _ _ _ _ _ hv)
+              simp only at h
+              split at h
+              · simp only [Except.ok.injEq, Prod.mk.injEq] at h
+                obtain ⟨rfl, _⟩ := h
+                exact f4
+              · split at h
+                · cases h
+                · rename_i s5 h5
+                  have f5 := f4.trans (wusCycleB_cfg h5)
+                  split at h
+                  · exact f5.trans (goRetA_cfg h)
                   · split at h
-                    · exact f5.trans (finish_cfg h)
                     · simp only [Except.ok.injEq, Prod.mk.injEq] at h
                       obtain ⟨rfl, _⟩ := h
-                      exact f5
-  · simp only [bind, Except.bind, pure, Except.pure] at h
+                      exact f5.trans ⟨rfl, rfl, rfl⟩
+                    · split at h
+                      · exact f5.trans (finish_cfg h)
+                      · simp only [Except.ok.injEq, Prod.mk.injEq] at h
+                        obtain ⟨rfl, _⟩ := h
+                        exact f5
+          · exact hB c3
+  · refine Cfg.toStep ?_
+    simp only [bind, Except.bind, pure, Except.pure] at h
     split at h
     · cases h
     · rename_i v hv
       obtain ⟨s1, e⟩ := v
-      have f1 : Cfg s s1 := (eusCycleBusy_cfg _ _ _ _ _ hv).pre ⟨rfl, rfl⟩
+      have f1 : Cfg s s1 := (eusCycleBusy_cfg _ _ _ _ _ hv).pre ⟨rfl, rfl, rfl⟩
       simp only at h
       split at h
       · simp only [Except.ok.injEq, Prod.mk.injEq] at h
@@ -377,18 +398,20 @@ theorem cycleM_cfg {app : App} {s s' : State} {ev : Event} (h : cycleM app s = .
         · cases h
         · rename_i s2 h2
           exact (f1.trans (wusCycle_cfg h2)).trans (goRetA_cfg h)
-  · simp only [bind, Except.bind] at h
+  · refine Cfg.toStep ?_
+    simp only [bind, Except.bind] at h
     split at h
     · cases h
     · rename_i s1 h1
-      exact (wusCycle_cfg h1).trans ((goRetB_cfg h).pre ⟨rfl, rfl⟩)
-  · rename_i seq pc fc _
+      exact (wusCycle_cfg h1).trans ((goRetB_cfg h).pre ⟨rfl, rfl, rfl⟩)
+  · refine Cfg.toStep ?_
+    rename_i seq pc fc _
     simp only [bind, Except.bind, pure, Except.pure] at h
     split at h
     · cases h
     · rename_i v hv
       obtain ⟨s1, acc⟩ := v
-      have f1 : Cfg s s1 := (eusCycleFlush_cfg _ _ _ _ _ _ _ hv).pre ⟨rfl, rfl⟩
+      have f1 : Cfg s s1 := (eusCycleFlush_cfg _ _ _ _ _ _ _ hv).pre ⟨rfl, rfl, rfl⟩
       simp only at h
       split at h
       · simp only [Except.ok.injEq, Prod.mk.injEq] at h
@@ -399,32 +422,34 @@ theorem cycleM_cfg {app : App} {s s' : State} {ev : Event} (h : cycleM app s = .
         simp only at hs
         subst hs
         exact f1.trans ((goFlushW_cfg acc.seq acc.pc fc acc.isEmpty s1.wus.length 0
-          { s1 with writeBus := s1.writeBus.connect (s1.cycles + 1) }).pre ⟨rfl, rfl⟩)
-  · rename_i i seq pc fc e _
+          { s1 with writeBus := s1.writeBus.connect (s1.cycles + 1) }).pre ⟨rfl, rfl, rfl⟩)
+  · refine Cfg.toStep ?_
+    rename_i i seq pc fc e _
     simp only [bind, Except.bind, pure, Except.pure] at h
     split at h
     · cases h
     · rename_i s1 h1
-      have f1 : Cfg s s1 := (wuCycle_cfg h1).pre ⟨rfl, rfl⟩
+      have f1 : Cfg s s1 := (wuCycle_cfg h1).pre ⟨rfl, rfl, rfl⟩
       simp only [Except.ok.injEq] at h
       have hs := congrArg Prod.fst h
       simp only at hs
       subst hs
       exact f1.trans (goFlushW_cfg seq pc fc e (s1.wus.length - i) i s1)
 
-theorem cycle_cfg (app : App) (s : State) : Cfg s (cycle app s).1 := by
+theorem cycle_cfg (app : App) (s : State) : Step s (cycle app s).1 (cycle app s).2 := by
   unfold cycle
   split
   · rename_i r hr
     obtain ⟨s', ev⟩ := r
     exact cycleM_cfg hr
-  · exact Cfg.refl s
-  · exact Cfg.refl s
+  · exact (Cfg.refl s).toStep
+  · exact (Cfg.refl s).toStep
 
-theorem runFrom_cfg (app : App) : ∀ (fuel : Nat) (s : State) (n : Nat), Cfg s (runFrom app fuel s n).final := by
+theorem runFrom_cfg (app : App) : ∀ (fuel : Nat) (s : State) (n : Nat),
+    (runFrom app fuel s n).final.v62 = s.v62 ∧ (runFrom app fuel s n).final.v63 = s.v63 := by
   intro fuel
   induction fuel with
-  | zero => intro s n; exact Cfg.refl s
+  | zero => intro s n; exact ⟨rfl, rfl⟩
   | succ fuel ih =>
     intro s n
     simp only [runFrom]
@@ -432,28 +457,63 @@ theorem runFrom_cfg (app : App) : ∀ (fuel : Nat) (s : State) (n : Nat), Cfg s 
     split
     · rename_i s' hs
       rw [hs] at hc
-      exact hc.trans (ih s' (n + 1))
+      have := ih s' (n + 1)
+      exact ⟨this.1.trans hc.v62, this.2.trans hc.v63⟩
     · rename_i s' hh hs
       rw [hs] at hc
-      exact hc
+      exact ⟨hc.v62, hc.v63⟩
+
+/-- **the marker at the end of a run.**  A run that starts without marker and ends with `mapOrder = some (r, p, q)` ended
+with the distinguished panic, in a tick in which the control unit examined the candidate `r` while two runners `p`, `q` with
+different identities, both in `pushedRunnersInPreviousCycle` (the final state's `cuPrev`), each write a register `r`
+reads.  (And a run that ends with the marker unset never met such a pair: `Proofs.Mvp63MapOrder.ambiguous_iff`.) -/
+theorem runFrom_mapOrder (app : App) : ∀ (fuel : Nat) (s : State) (n : Nat), s.mapOrder = none →
+    ∀ w, (runFrom app fuel s n).final.mapOrder = some w →
+      (runFrom app fuel s n).halt = some (.panic mapOrderMsg) ∧ Wit (runFrom app fuel s n).final.cuPrev w := by
+  intro fuel
+  induction fuel with
+  | zero =>
+    intro s n h0 w hw
+    simp only [runFrom] at hw
+    rw [h0] at hw; cases hw
+  | succ fuel ih =>
+    intro s n h0 w hw
+    simp only [runFrom] at hw ⊢
+    have hc := cycle_cfg app s
+    split at hw
+    · rename_i s' hs
+      rw [hs] at hc
+      rcases hc.mo with e | ⟨e, _⟩
+      · exact ih s' (n + 1) (e.trans h0) w hw
+      · cases e
+    · rename_i s' hh hs
+      rw [hs] at hc
+      simp only at hw
+      rcases hc.mo with e | ⟨e, w', hw', hwit⟩
+      · rw [e, h0] at hw; cases hw
+      · simp only at e hw' hwit
+        rw [hw'] at hw
+        cases hw
+        cases e
+        exact ⟨rfl, hwit⟩
 
 /-- every state of a run has the configuration of the initial state -/
 theorem run_cfg (app : App) (fuel : Nat) (s : State) :
     (runFrom app fuel s 0).final.v62 = s.v62 ∧ (runFrom app fuel s 0).final.v63 = s.v63 :=
-  ⟨(runFrom_cfg app fuel s 0).v62, (runFrom_cfg app fuel s 0).v63⟩
+  runFrom_cfg app fuel s 0
 
 theorem init61_cfg {ctx : Model.Context} {eu wu : Nat} {s : State} (h : Model.Mvp61.init ctx eu wu = .ok s) :
-    s.v62 = false ∧ s.v63 = false := by
+    s.v62 = false ∧ s.v63 = false ∧ s.mapOrder = none := by
   unfold Model.Mvp61.init at h
   split at h
   · cases h
   · simp only [bind, Except.bind, pure, Except.pure] at h
     split at h
     · cases h
-    · cases h; exact ⟨rfl, rfl⟩
+    · cases h; exact ⟨rfl, rfl, rfl⟩
 
 theorem init62_cfg {ctx : Model.Context} {eu wu : Nat} {s : State} (h : Model.Mvp62.init ctx eu wu = .ok s) :
-    s.v62 = true ∧ s.v63 = false := by
+    s.v62 = true ∧ s.v63 = false ∧ s.mapOrder = none := by
   unfold Model.Mvp62.init at h
   split at h
   · cases h
@@ -462,16 +522,18 @@ theorem init62_cfg {ctx : Model.Context} {eu wu : Nat} {s : State} (h : Model.Mv
     · cases h
     · rename_i s0 h0
       cases h
-      exact ⟨rfl, (init61_cfg h0).2⟩
+      exact ⟨rfl, (init61_cfg h0).2.1, (init61_cfg h0).2.2⟩
 
 theorem init63_cfg {ctx : Model.Context} {eu wu : Nat} {s : State} (h : Model.Mvp63.init ctx eu wu = .ok s) :
-    s.v62 = true ∧ s.v63 = true := by
+    s.v62 = true ∧ s.v63 = true ∧ s.mapOrder = none := by
   unfold Model.Mvp63.init at h
   split at h
   · cases h
   · simp only [bind, Except.bind, pure, Except.pure] at h
     split at h
     · cases h
-    · cases h; exact ⟨rfl, rfl⟩
+    · rename_i s0 h0
+      cases h
+      exact ⟨rfl, rfl, (init61_cfg h0).2.2⟩
 
 end Proofs.Mvp61Cfg
